@@ -26,10 +26,15 @@ def graph_attributes_from_molfile_v2000(
     atom_count = _to_int(lines[3][0:3])  # aaa
     bond_count = _to_int(lines[3][3:6])  # bbb
     atom_lists_count = _to_int(lines[3][6:9])  # lll
+    stext_count = _to_int(lines[3][15:18])  # sss
 
     atom_block_offset = 4
     bond_block_offset = atom_block_offset + atom_count
-    attribute_block_offset = bond_block_offset + atom_lists_count
+    # The properties block follows the bond block, the atom list block and the
+    # stext block (two lines per entry, the second one being free text).
+    attribute_block_offset = (
+        bond_block_offset + bond_count + atom_lists_count + 2 * stext_count
+    )
 
     atom_attrs = _parse_atom_block(
         lines[atom_block_offset : atom_block_offset + atom_count]
@@ -97,8 +102,15 @@ def _parse_attribute_block(
     reset_chg_and_rad = False
 
     additional_attrs: dict = {}
+    skip_free_text_line = False
     for line in lines:
-        if line.startswith("M  CHG"):
+        if skip_free_text_line:
+            skip_free_text_line = False
+        elif line.startswith("A  ") or line.startswith("G  "):
+            # Atom alias and group abbreviation: the next line is free text, which
+            # must not be mistaken for a property line.
+            skip_free_text_line = True
+        elif line.startswith("M  CHG"):
             # M  CHGnn8 aaa vvv ...
             _merge_tuples_into_additional_attributes(
                 _parse_atom_value_assignments(line, atom_attrs), CHG, additional_attrs
